@@ -348,6 +348,19 @@ fn brief(op: &COp) -> String {
 }
 
 fn gen_string(t: &mut Tape, pool: &mut Vec<Vec<u8>>) -> Vec<u8> {
+    if t.chance(5) {
+        // length boundaries (dictionary tables address entries by byte offset): a first byte,
+        // then a repeated two-byte unit
+        let n = crate::leaves::BOUNDARY_LENS[t.below(crate::leaves::BOUNDARY_LENS.len())];
+        let first = [b'L', 0u8, 200, 7][t.below(4)];
+        let mut s = Vec::with_capacity(n);
+        s.push(first);
+        while s.len() < n {
+            s.push(b'a' + (s.len() % 7) as u8);
+        }
+        pool.push(s.clone());
+        return s;
+    }
     match t.below(12) {
         0 => Vec::new(),
         1 | 2 | 3 if !pool.is_empty() => {
@@ -393,6 +406,22 @@ pub fn decode_case(t: &mut Tape, allow_lossy: bool) -> CodecCase {
     let mut ops = Vec::new();
     let mut pool: Vec<Vec<u8>> = Vec::new();
     let mut big = 0;
+    if allow_lossy && t.chance(96) {
+        // a dominant string buried in the middle of a long history of distinct strings: it is
+        // neither among the first entries of the summary nor after its last compaction
+        let r = t.below(NREG) as u8;
+        let a = [0u16, 300, 600, 1100][t.below(4)];
+        let c = [0u16, 520, 1100, 1500][t.below(4)];
+        let hot = gen_string(t, &mut pool);
+        let hot = if hot.is_empty() { b"hot-string".to_vec() } else { hot };
+        let b = 4 * (a + c) + 50 + t.below(500) as u16;
+        ops.push(COp::PushDistinct { r, prefix: vec![b'p', 1], n: a });
+        ops.push(COp::PushMany { r, s: hot.clone(), n: b });
+        ops.push(COp::PushDistinct { r, prefix: vec![b'q', 2], n: c });
+        let dst = t.below(NREG) as u8;
+        ops.push(COp::Merge { dst, srcs: vec![r] });
+        ops.push(COp::Push { r: dst, s: hot });
+    }
     while !t.exhausted() && ops.len() < 60 {
         let r = t.below(NREG) as u8;
         let op = match t.weighted(&[50, 14, 2, 14, 4, 1]) {
